@@ -522,3 +522,9 @@ def run(prog, rep):
     rule_cover(prog, rep)
     rule_restore(prog, rep)
     rule_pure(prog, rep)
+    # while a schema is being re-validated a built-in scalar that was pruned is not in
+    # schema.types until the restore loop has run: a validator that decides by looking the name up
+    # (instead of `same name or is_subtype`) rejects the field that references it.  The type
+    # compatibility table of C29.IMPL has `name == name` first in every named cell; shared.
+    from .C29 import rule_impl
+    rule_impl(prog, rep)
